@@ -29,11 +29,14 @@ pub fn check(tier: Tier) -> Check {
     parts.push(Part::new("C07/bits", json!({}), 0, 120));
     // four established subscriptions: stream drops / lag in every order, messages to every one
     parts.push(Part::new("C07/many", json!({"subs": 4, "depth": tier.pick(5, 6)}), tier.pick(0, 1), tier.pick(30, 400)));
+    // a rolling population: streams dropped and new subscriptions made again and again, so that the
+    // client's bookkeeping shrinks, grows and wraps around; every live stream gets its messages
+    parts.push(Part::new("C07/rolling", json!({"rounds": tier.pick(14, 40)}), 0, 120));
     Check {
         also_rel: false,
         property: "C07",
         level: "model_checking",
-        rule: "all event sequences over <=2 subscribe calls, SUBACKs, stream() calls, inbound PUBLISH (QoS 0/1/2 x subscription identifier absent / first / second / unknown / both / repeated adjacently and non-adjacently / mixed with an unknown one), stream drops, an unsubscribe, with lagging (held) and spuriously polled streams as deviations; plus two subscriptions whose identifiers differ in exactly one bit (bit 0..27, two base values) with messages to each, to both and to an unregistered neighbour; plus four established subscriptions with stream drops and messages to each in every order, and a sweep over message field combinations; non-trivial = at least one message was dispatched to a stream".into(),
+        rule: "all event sequences over <=2 subscribe calls, SUBACKs, stream() calls, inbound PUBLISH (QoS 0/1/2 x subscription identifier absent / first / second / unknown / both / repeated adjacently and non-adjacently / mixed with an unknown one), stream drops, an unsubscribe, with lagging (held) and spuriously polled streams as deviations; plus two subscriptions whose identifiers differ in exactly one bit (bit 0..27, two base values) with messages to each, to both and to an unregistered neighbour; plus four established subscriptions with stream drops and messages to each in every order, a rolling population (windows of 1..9 live subscriptions; per round one stream dropped - oldest, newest or middle -, a new subscription made, messages to the newest, to each, to all and to the dropped one) over 14 (thorough: 40) rounds; and a sweep over message field combinations; non-trivial = at least one message was dispatched to a stream".into(),
         assumptions: vec![
             "acknowledgements written by the client are not compared here (C08)".into(),
             "QoS 2 identifiers are not repeated here (C09)".into(),
@@ -156,6 +159,75 @@ fn many(name: String, params: Value) -> Scenario {
     })
 }
 
+/// A window of w live subscriptions; every round: drop one stream (the oldest / the newest / one in
+/// the middle), a message naming the dropped and all live ones, a new subscription (SUBACK, stream),
+/// a message for the newest alone, one for each live one, one for all.
+fn rolling(name: String, params: Value) -> Scenario {
+    let rounds = params["rounds"].as_u64().unwrap_or(14) as usize;
+    Box::new(move |chz, ex| {
+        let w = [1usize, 2, 3, 4, 5, 7, 8, 9][chz.choose(8)];
+        let victim = chz.choose(3);
+        let removal_seen = chz.choose(2) == 1;
+        let mut sys = Sys::new("C07", &name, chz);
+        sys.params = params.clone();
+        sys.m.check_client_acks = false;
+        sys.bring_up(vec![]);
+        // (stream index, subscription identifier) of the live ones, oldest first
+        let mut live: Vec<(usize, u32)> = vec![];
+        let mut subscribe = |sys: &mut Sys, live: &mut Vec<(usize, u32)>| {
+            let op = sys.m.ops.len();
+            sys.apply(Ev::Start(OpSpec::Subscribe(SubscribeSpec::simple(&format!("s/{}", op)))));
+            if sys.dead {
+                return;
+            }
+            let ack = sys.ack_for(op, 0, "").unwrap();
+            sys.apply(Ev::Deliver(ack));
+            sys.apply(Ev::TakeStream(op));
+            if sys.dead {
+                return;
+            }
+            let sb = sys.m.ops[op].sub.unwrap();
+            live.push((sys.m.subs[sb].stream.unwrap(), sys.m.subs[sb].sub_id.unwrap()));
+        };
+        for _ in 0..w {
+            subscribe(&mut sys, &mut live);
+        }
+        for round in 0..rounds {
+            if sys.dead {
+                break;
+            }
+            let k = match victim {
+                0 => 0,
+                1 => live.len() - 1,
+                _ => live.len() / 2,
+            };
+            let (st, gone) = live.remove(k);
+            sys.apply(Ev::DropStream(st));
+            if removal_seen {
+                // the client notices the dead stream when a message names it
+                let mut ids = vec![gone];
+                ids.extend(live.iter().map(|x| x.1));
+                sys.apply(Ev::Deliver(inbound(0, false, 0, &ids, &format!("g{}", round))));
+            }
+            subscribe(&mut sys, &mut live);
+            if sys.dead {
+                break;
+            }
+            let newest = live[live.len() - 1].1;
+            sys.apply(Ev::Deliver(inbound(1, false, 50, &[newest], &format!("n{}", round))));
+            for (_, id) in live.clone() {
+                sys.apply(Ev::Deliver(inbound(0, false, 0, &[id], &format!("e{}-{}", round, id))));
+            }
+            let all: Vec<u32> = live.iter().map(|x| x.1).collect();
+            sys.apply(Ev::Deliver(inbound(0, false, 0, &all, &format!("a{}", round))));
+            sys.apply(Ev::Deliver(inbound(0, false, 0, &[gone], &format!("late{}", round))));
+        }
+        sys.finish();
+        sys.events = vec![format!("rolling window of {} subscriptions, {} rounds, victim rule {}, removal noticed early: {}", w, rounds, victim, removal_seen)];
+        sys.report(ex, &["message-dispatched"]);
+    })
+}
+
 /// Two subscriptions whose identifiers differ in exactly one bit: the lookup must use all 28 bits.
 fn bits(name: String, params: Value) -> Scenario {
     Box::new(move |chz, ex| {
@@ -201,6 +273,9 @@ fn bits(name: String, params: Value) -> Scenario {
 }
 
 pub fn scenario(name: &str, params: &Value) -> Scenario {
+    if name == "C07/rolling" {
+        return rolling(name.to_string(), params.clone());
+    }
     if name == "C07/bits" {
         return bits(name.to_string(), params.clone());
     }
